@@ -92,13 +92,13 @@ Definition kobs := (list (view * option (list ssig)) * list qcert)%type.
 Definition kobs_eqb (a b : kobs) : bool :=
   list_eqb send_eqb (fst a) (fst b) && list_eqb qc_eqb (snd a) (snd b).
 
-(* members, SubTree(), is-leaf, available block hashes, stimuli,
+(* members, SubTree(), is-leaf, available block hashes, scheme is BLS12, stimuli,
    observed per stimulus, final (aggContrib, aggSent, senders) *)
-Definition kcase := (list rid * list rid * bool * list hash * list kevent *
+Definition kcase := (list rid * list rid * bool * list hash * bool * list kevent *
                      list kobs * (option (list ssig) * bool * list rid))%type.
 Definition check_kcase (c : kcase) : bool :=
-  let '(members, subtree, leaf, blocks, es, obs, fin) := c in
-  let '(st, outs) := krun (mkKC members subtree leaf blocks) kinit es in
+  let '(members, subtree, leaf, blocks, bls, es, obs, fin) := c in
+  let '(st, outs) := krun (mkKC members subtree leaf blocks bls) kinit es in
   let '(fagg, fsent, fsenders) := fin in
   list_eqb kobs_eqb (map (fun o => (sends_of o, qcs_of o)) outs) obs &&
   osig_eqb (ks_agg st) fagg && Bool.eqb (ks_sent st) fsent && list_eqb N.eqb (ks_senders st) fsenders.
